@@ -35,6 +35,7 @@ class ArrSet(Opaque):
 
     def __init__(self, name):
         self.present = sym(name + '.present', z3.ArraySort(BV16, z3.BoolSort()))
+        self.count = sym(name + '.count', z3.BitVecSort(64))    # ghost cardinality (only read by code that asks for len())
         self.facts = None   # invariant instances to add for a freshly popped id (set by the harness)
 
     def __deepcopy__(self, memo):
@@ -49,6 +50,7 @@ class ArrMap(Opaque):
 
     def __init__(self, name):
         self.present = sym(name + '.present', z3.ArraySort(BV16, z3.BoolSort()))
+        self.count = sym(name + '.count', z3.BitVecSort(64))    # ghost cardinality (only read by code that asks for len())
 
 
 def set_summaries():
@@ -228,6 +230,7 @@ def arr_map_summaries():
         if not isinstance(m, ArrMap):
             return NotImplemented
         m.present = z3.Store(m.present, ve.fields[1].bv, z3.BoolVal(True))
+        m.count = m.count + 1
         return [(st, Ref(Cell(argv[1], 'slotval')))]
 
     @reg(r'^HashMap::<u16, .*>::remove(::<.*>)?$')
@@ -240,6 +243,7 @@ def arr_map_summaries():
             mm = deref(ex, s, c[0])
             if occ:
                 mm.present = z3.Store(mm.present, deref(ex, s, c[1]).bv, z3.BoolVal(False))
+                mm.count = mm.count - 1
                 outs.append((s, mk_option(Unit())))
             else:
                 outs.append((s, mk_option()))
@@ -251,6 +255,15 @@ def arr_map_summaries():
         if not isinstance(m, ArrMap):
             return NotImplemented
         return [(st, Bool(m.present == z3.K(BV16, z3.BoolVal(False))))]
+
+    @reg(r'^HashMap::<u16, .*>::len$')
+    def hm_len(ex, st, fn, argv):
+        m = deref(ex, st, argv[0])
+        if not isinstance(m, ArrMap):
+            return NotImplemented
+        # ghost cardinality: between 0 and 65536, zero exactly when no key is present (exact counting is done in the history BMC)
+        st.pc += [z3.ULE(m.count, 65536), (m.count == 0) == (m.present == z3.K(BV16, z3.BoolVal(False)))]
+        return [(st, Int(m.count, 64, False))]
 
     return S
 
